@@ -693,11 +693,15 @@ func checkC05() *CheckDef {
 			if step <= 1 && tier != "thorough" {
 				simple = 1 // base values: every nilable field absent, or every one present
 			}
-			chunk := 0
-			if step == 0 {
-				chunk = 4
+			nshapes := 0
+			if step == 1 && tier != "thorough" {
+				nshapes = 8 // the seven scalar shapes and list<i32>
 			}
-			out = append(out, genHarnesses(c, "gH05", map[string]int{"depth": 2, "step": step, "simple": simple, "ends": simple, "chunk": chunk}, 20000000)...)
+			out = append(out, genHarnesses(c, "gH05", map[string]int{"depth": 2, "step": step, "simple": simple, "ends": simple, "nshapes": nshapes}, 20000000)...)
+			if step == 0 {
+				// the unknown field in front, decoded from a stream whose first 4 reads are arbitrarily segmented
+				out = append(out, genHarnesses(c, "gH05", map[string]int{"depth": 2, "step": 0, "simple": 2, "ends": 2, "chunk": 4}, 20000000)...)
+			}
 		}
 		out = append(out, &sym.HarnessConfig{Name: "gHWitness", Pkg: c.Gen.MainPkg, Params: map[string]int{"type": 0, "depth": 1}, Budget: 20000000, ExpectViolation: true})
 		return out
